@@ -864,6 +864,43 @@ pub fn gen_big(rng: &mut Rng) -> Yaml {
 /// T7: regexes that compile alone but are large (counted repetitions of a Unicode class), two or
 /// three of them on one field, as a list or as sequence entries: together they exceed the size
 /// limit of a regex set.
+/// T10: one or two fields looked at through `str()` casts with patterns over the PRINTED form of a
+/// number (what tells apart values that are equal as numbers: 0.0 and -0.0, 1 and 1.0), next to
+/// int()/flt() comparisons of the same fields. The documents generated from it hold those twins.
+fn gen_t10(rng: &mut Rng) -> Yaml {
+    let pats = ["0", "-0", "-*", "0*", "*.5", "1", "-1", "*0", "?^-", "?^\\d+$", "?^-?0$", "inf", "i-0"];
+    let mut det = Mapping::new();
+    let nid = 1 + rng.below(2);
+    for (i, name) in ["A", "B"].iter().take(nid).enumerate() {
+        let mut m = Mapping::new();
+        let f = ["a", "b"][(i + rng.below(2)) % 2];
+        m.insert(ystr(&format!("str({})", f)), if rng.chance(1, 4) {
+            Yaml::Sequence((0..2 + rng.below(2)).map(|_| ystr(*rng.pick(&pats))).collect())
+        } else {
+            ystr(*rng.pick(&pats))
+        });
+        if rng.chance(1, 3) {
+            let g = ["a", "b", "c"][rng.below(3)];
+            m.insert(ystr(&format!("{}({})", if rng.chance(1, 2) { "flt" } else { "int" }, g)), ystr(*rng.pick(&[">=0", "<=0", "<1", ">-1", "0"])));
+        }
+        det.insert(ystr(name), Yaml::Mapping(m));
+    }
+    let cond = match (nid, rng.below(4)) {
+        (1, 0) => "not A",
+        (1, _) => "A",
+        (_, 0) => "A or B",
+        (_, 1) => "A and not B",
+        (_, 2) => "not A or B",
+        _ => "A and B",
+    };
+    det.insert(ystr("condition"), ystr(cond));
+    let mut rule = Mapping::new();
+    rule.insert(ystr("detection"), Yaml::Mapping(det));
+    rule.insert(ystr("true_positives"), Yaml::Sequence(vec![]));
+    rule.insert(ystr("true_negatives"), Yaml::Sequence(vec![]));
+    Yaml::Mapping(rule)
+}
+
 fn gen_t7(rng: &mut Rng) -> Yaml {
     // (60: three fit in a set; 100: two fit, three do not; 140: two do not)
     let n = *rng.pick(&[60usize, 100, 100, 140]);
@@ -1116,6 +1153,17 @@ pub fn gen_rule(rng: &mut Rng, k: &Knobs) -> Yaml {
         probe.next_u64();
         if probe.chance(1, 11) {
             let r = gen_t9(&mut probe, k);
+            *rng = probe;
+            return r;
+        }
+    }
+    if !k.has(F_T6) {
+        // T10 (decided on a copy of the stream as well): casts over number-print patterns
+        let mut probe = rng.clone();
+        probe.next_u64();
+        probe.next_u64();
+        if probe.chance(1, 40) {
+            let r = gen_t10(&mut probe);
             *rng = probe;
             return r;
         }
